@@ -2,7 +2,10 @@
 use crate::duals::{fmt_num, hf, pf, DualState};
 use crate::rng::Rng;
 use rateslib::dual::{Dual, Dual2, Number};
-use rateslib::splines::{bspldnev_single_f64, bsplev_single_f64, PPSpline};
+use rateslib::splines::{
+    bspldnev_single_dual, bspldnev_single_dual2, bspldnev_single_f64, bsplev_single_dual, bsplev_single_dual2,
+    bsplev_single_f64, PPSpline,
+};
 use std::collections::HashMap;
 use std::io::Write;
 use std::panic::{catch_unwind, AssertUnwindSafe};
@@ -54,6 +57,32 @@ pub fn step(ds: &DualState, st: &mut SplineState, t: &[&str]) -> Option<String> 
             let (x, i, k, m, o) = (pf(x)?, i.parse().ok()?, k.parse::<usize>().ok()?, m.parse().ok()?, org(o)?);
             let tv: Vec<f64> = ts.iter().map(|s| pf(s)).collect::<Option<_>>()?;
             guarded(|| hf(bspldnev_single_f64(&x, i, &k, &tv, m, o)))
+        }
+        ["bspldual", ord, m, x, dx, ddx, i, k, _nt, ts @ ..] => {
+            // the public dual-abscissa entry points of a single basis function, called directly
+            let (x, dx, ddx) = (pf(x)?, pf(dx)?, pf(ddx)?);
+            let (i, k): (usize, usize) = (i.parse().ok()?, k.parse().ok()?);
+            let mm: Option<usize> = if *m == "-" { None } else { Some(m.parse().ok()?) };
+            let tv: Vec<f64> = ts.iter().map(|s| pf(s)).collect::<Option<_>>()?;
+            let names = vec!["x".to_string(), "y".to_string()];
+            let first = *ord == "1";
+            guarded(|| {
+                if first {
+                    let xd = Dual::try_new(x, names, vec![dx, 0.5]).unwrap();
+                    let r = match mm {
+                        None => bsplev_single_dual(&xd, i, &k, &tv, None),
+                        Some(m) => bspldnev_single_dual(&xd, i, &k, &tv, m, None),
+                    };
+                    fmt_num(&Number::Dual(r))
+                } else {
+                    let xd = Dual2::try_new(x, names, vec![dx, 0.5], vec![ddx, 0.25, 0.25, -1.0]).unwrap();
+                    let r = match mm {
+                        None => bsplev_single_dual2(&xd, i, &k, &tv, None),
+                        Some(m) => bspldnev_single_dual2(&xd, i, &k, &tv, m, None),
+                    };
+                    fmt_num(&Number::Dual2(r))
+                }
+            })
         }
         ["basisrow", x, k, _nt, ts @ ..] => {
             let (x, k) = (pf(x)?, k.parse::<usize>().ok()?);
@@ -208,6 +237,16 @@ pub fn gen_c14<W: Write>(out: &mut W, thorough: bool, seed: u64) {
                 writeln!(out, "bsplev {} {} {} - {} {}", hf(*x), i, k, t.len(), ts).unwrap();
                 for m in 0..=k {
                     writeln!(out, "bspldnev {} {} {} {} - {} {}", hf(*x), i, k, m, t.len(), ts).unwrap();
+                }
+                // the dual-abscissa entry points, on a third of the functions
+                if (i + (x.to_bits() >> 40) as usize) % 3 == 0 {
+                    let (dx, ddx) = (r.dyadic(), r.dyadic());
+                    for ord in [1, 2] {
+                        writeln!(out, "bspldual {} - {} {} {} {} {} {} {}", ord, hf(*x), hf(dx), hf(ddx), i, k, t.len(), ts).unwrap();
+                        for m in 0..3usize.min(k + 1) {
+                            writeln!(out, "bspldual {} {} {} {} {} {} {} {} {}", ord, m, hf(*x), hf(dx), hf(ddx), i, k, t.len(), ts).unwrap();
+                        }
+                    }
                 }
             }
         }
